@@ -81,8 +81,42 @@ FilterViols(r) ==
        ELSE {<<"C11", "the filter expression the server parses is not the expression that was built",
                IF ValClasses(r.tree) \cap {"dq", "bs"} # {} THEN "F-C11-1" ELSE "">>}
 
+\* ---- binding of the implementation-shaped encoder model (Encoder.tla, as coded) to the code: for every recorded case the model must
+\* predict the builder's verdicts and the exact bytes.  A mismatch is DRIFT (the exhaustive EncoderMC result no longer describes this
+\* code), printed as a note - never a verdict: a different but correct encoding must not raise an alarm.
+E == INSTANCE Encoder WITH QuoteWhenEscaping <- FALSE, FilterEscapesBoth <- FALSE
+N == INSTANCE Names
+RECURSIVE EFold(_, _, _)
+EFold(b, steps, k) == IF k > Len(steps) THEN b ELSE EFold(E!PAddStr(b, steps[k].v), steps, k + 1)
+CmdDrift(r) ==
+  \* (arguments longer than 200 bytes are left to the peer model: the model's byte-by-byte rendering is quadratic in TLC)
+  IF r.not_utf8 \/ \E k \in 1..Len(r.steps) : (~r.steps[k].is_str \/ Len(r.steps[k].v) > 200) THEN {}
+  ELSE LET b0 == E!PBuild(r.name) IN
+       IF b0.built # r.build_ok THEN {"Command::build verdict"}
+       ELSE IF ~r.build_ok THEN {}
+       ELSE LET b == EFold(b0, r.steps, 1)
+                acc == SelectSeq(r.steps, LAMBDA st : st.ok) IN
+            (IF E!Line(b) = r.wire THEN {} ELSE {"bytes of the command line"})
+            \cup (IF b.args = [k \in 1..Len(acc) |-> acc[k].v] THEN {} ELSE {"accepted / rejected arguments"})
+RECURSIVE ETree(_)
+RECURSIVE EFlat(_)
+EFlat(es) == IF es = <<>> THEN <<>> ELSE LET h == ETree(Head(es)) IN (IF h.k = "and" THEN h.es ELSE <<h>>) \o EFlat(Tail(es))
+ETree(t) == IF t.k = "tag" THEN [k |-> "tag", tag |-> N!Canonical(t.tag), opb |-> t.op, v |-> t.v]
+            ELSE IF t.k = "not" THEN [k |-> "not", e |-> ETree(t.e)]
+            ELSE [k |-> "and", es |-> EFlat(t.es)]          \* Filter::and flattens the operands of both sides
+FilterPrefix(c) == IF c = "find" THEN <<102,105,110,100,32>> ELSE IF c = "list" THEN <<108,105,115,116,32,84,105,116,108,101,32>> ELSE <<99,111,117,110,116,32>>
+FilterDrift(r) ==
+  LET farg == E!RenderFilterArg(ETree(r.tree))
+      pre == FilterPrefix(r.cmd) IN
+  IF ~E!ArgValid(farg) THEN {}      \* (the typed commands panic on a rejected filter: recorded as "panic", judged elsewhere)
+  ELSE IF Len(r.wire) >= Len(pre) + Len(farg) /\ SubSeq(r.wire, 1, Len(pre)) = pre /\ SubSeq(r.wire, Len(pre) + 1, Len(pre) + Len(farg)) = farg THEN {}
+  ELSE {"bytes of the filter argument"}
+Drift(r) == IF r.e = "cmd" THEN CmdDrift(r) ELSE IF r.e = "filter" THEN FilterDrift(r) ELSE {}
+Bound(r) == (r.e = "cmd" /\ ~r.not_utf8 /\ \A k \in 1..Len(r.steps) : r.steps[k].is_str) \/ r.e = "filter"
+
 Init == i = 0
 Next == /\ i < Len(Recs) /\ i' = i + 1
+        /\ LET r == Recs[i + 1] IN (IF Drift(r) # {} THEN PrintT(<<"DRIFT", r.id, i + 1, SetToSeq(Drift(r))>>) ELSE TRUE)
         /\ LET r == Recs[i + 1]
                vs == IF r.e = "cmd" THEN CmdViols(r) ELSE IF r.e = "list" THEN ListViols(r) ELSE IF r.e = "filter" THEN FilterViols(r)
                      ELSE IF r.e = "panic" THEN {<<"PANIC", "the command builder panicked", "">>} ELSE {} IN
